@@ -222,6 +222,7 @@ class State:
         self.heap = {}  # map name -> z3 array
         self.pc = []
         self.alloc = None  # z3 Int: next free reference
+        self.ralloc = None  # z3 Int: allocation stamp of the next Fragment object (identity / freshness)
         self.ghost = {}  # free-form ghost data (python-side, cloned shallowly)
         self.trace = []  # line numbers of branch decisions (for reports)
 
@@ -232,6 +233,7 @@ class State:
         s.heap = dict(self.heap)
         s.pc = list(self.pc)
         s.alloc = self.alloc
+        s.ralloc = self.ralloc
         s.ghost = dict(self.ghost)
         s.trace = list(self.trace)
         return s
